@@ -882,7 +882,7 @@ class Term:
                 bodyT = rec(t.body, [t.var_T] + bd_vars)
                 return TFun(t.var_T, bodyT)
             elif t.is_bound():
-                if t.n >= len(bd_vars):
+                if t.n >= len(bd_vars) or t.n < 0:
                     raise TypeCheckException("open term")
                 else:
                     return bd_vars[t.n]
